@@ -17,14 +17,14 @@ MODEL_FAMILIES = ["string", "key", "list"]
 def make_cases(tier, seed):
     cases = gen_ttl.gen_timer(seed, MODEL_TYPES)
     cases += gen_ttl.gen_matrix(seed, tier, MODEL_TYPES, MODEL_FAMILIES)
-    cases += gen_ttl.gen_random(seed, 2000 if tier == "quick" else 20000, MODEL_TYPES)
+    cases += gen_ttl.gen_random(seed, 2000 if tier == "quick" else 60000, MODEL_TYPES)
     return cases
 
 
 def post(ctx, d):
     if ctx.tier != "thorough":
         return None, dict(tcp_sample="thorough tier only")
-    failing, cov = ttllib.tcp_sample(ctx, d, PID, gen_ttl.gen_tcp(ctx.seed, 12, MODEL_TYPES))
+    failing, cov = ttllib.tcp_sample(ctx, d, PID, gen_ttl.gen_tcp(ctx.seed, 40, MODEL_TYPES))
     if failing:
         from . import lib
         lib.violation(PID, failing)
